@@ -498,7 +498,7 @@ Proof.
     intros _ _.
     eapply tot2_bind1; [apply tot1_parse_attribute_text; [exact ST|exact EB2]|]. intros sub_attrs _.
     eapply tot2_bind; [eapply tot2_weaken; [|apply Hrec; exact ST]; lia|]. intros sub _.
-    destruct (sub_name =? name_short_name T)%N; [|apply LOOP; right; exact PI].
+    destruct ((sub_name =? name_short_name T)%N && match content with [] => true | _ :: _ => false end); [|apply LOOP; right; exact PI].
     destruct (first_string sub); [|apply LOOP; right; exact PI].
     eapply tot2_bind1; [apply tot1_modify; intros; repeat split|]. intros _ _. apply LOOP; right; exact PI.
   - (* end element *)
